@@ -13,11 +13,17 @@ import Bng.Map
   Go maps are `AMap`s.  `leasesByCircuitID` maps a circuit-id to (a copy of) the lease object it
   points to; lease objects are never mutated after creation in the Go code, so a copy is exact.
 
-  NOT modelled (parameters fixed to "absent/disabled"): Nexus client, HTTP allocator, peer pool,
+  Nexus / HTTP-allocator mode (Demo E) IS modelled: `Cfg.nexusMode` with the table `Cfg.nexus` of allocations the
+  Nexus API answers LookupIPv4 with (found / 404; lookup failures behave like 404), as fixed by d4aaa77.
+  `cleanupExpiredLeases` is modelled both as one step (`Op.cleanup`) and split at the point where it drops its read
+  lock (`expiredList` = the scan, `Op.cleanupApply` = the write-locked removal, as fixed by bb6b2ef: it re-checks
+  every lease); `applyUnchecked` is the removal loop as it was BEFORE that fix (for the witness theorem).
+
+  NOT modelled (parameters fixed to "absent/disabled"): Nexus client (GetSubscriberByMAC), peer pool,
   RADIUS authentication/accounting, QoS, NAT, the eBPF fast-path cache, several pools per server
   (one pool, id 1, which `ClassifyClient` always returns), reserved ranges (ReservedStart = ReservedEnd = 0),
-  option 82 with an empty circuit-id, hostnames.  `cleanupExpiredLeases` is one atomic step (its
-  read-lock scan and write-lock removal are not interleaved with packets).
+  hostnames.  Option 82 is absent, carries a circuit-id, carries an EMPTY circuit-id (`Msg.o82empty`), or carries
+  no parsable circuit-id (remote-id only / truncated TLV: behaves like "absent" for everything modelled).
   Core Lean only.
 -/
 namespace Bng.Dhcp4
@@ -28,6 +34,8 @@ structure Cfg where
   plen      : Nat      -- prefix length
   gateway   : Nat
   leaseTime : Nat      -- seconds
+  nexusMode : Bool := false            -- SetHTTPAllocator was called
+  nexus     : AMap Nat Nat := []       -- MAC → address: what the Nexus API answers LookupIPv4 with
   deriving Repr, DecidableEq
 
 def Cfg.size (c : Cfg) : Nat := 2 ^ (32 - c.plen)
@@ -39,6 +47,10 @@ def Cfg.contains (c : Cfg) (ip : Nat) : Bool := decide (c.base ≤ ip) && decide
 /-- a host address that may be served: inside the network, not network / broadcast / gateway -/
 def Cfg.usable (c : Cfg) (ip : Nat) : Bool :=
   decide (c.base < ip) && decide (ip < c.bcast) && !(ip == c.gateway)
+
+/-- httpAllocator.LookupIPv4 (none: allocator not configured, or no allocation for this MAC) -/
+def Cfg.nexusLookup (c : Cfg) (mac : Nat) : Option Nat :=
+  if c.nexusMode then AMap.lookup c.nexus mac else none
 
 /-- generateAvailableIPs with no reserved ranges: hosts 1 … numHosts in order, gateway skipped
     (the byte-wise addition of the code is numeric addition because the base is masked) -/
@@ -112,7 +124,8 @@ structure Msg where
   requested : Option Nat := none   -- option 50
   ciaddr    : Nat := 0
   giaddr    : Nat := 0             -- ≠ 0 ⇒ relayed
-  cid       : Option Nat := none   -- option 82 circuit-id
+  cid       : Option Nat := none   -- option 82 circuit-id (non-empty)
+  o82empty  : Bool := false        -- option 82 present with a circuit-id sub-option of length 0
   deriving Repr, DecidableEq
 
 inductive Reply where
@@ -140,9 +153,12 @@ def circuitHit (s : State) (m : Msg) : Bool :=
 /-- handleDiscover -/
 def discover (s : State) (m : Msg) : State × Reply :=
   let fresh : State × Reply :=
-    match s.pool.allocate m.mac with
-    | (p, some ip) => ({ s with pool := p }, .offer ip s.cfg.leaseTime)
-    | (_, none) => (s, .none)
+    match s.cfg.nexusLookup m.mac with
+    | some ip => (s, .offer ip s.cfg.leaseTime)          -- activated subscriber: the Nexus allocation, no pool binding
+    | none =>
+      match s.pool.allocate m.mac with
+      | (p, some ip) => ({ s with pool := p }, .offer ip s.cfg.leaseTime)
+      | (_, none) => (s, .none)
   match existing s m with
   | some l => if s.now < l.exp then (s, .offer l.ip s.cfg.leaseTime) else fresh
   | none => fresh
@@ -178,14 +194,18 @@ def request (s : State) (m : Msg) : State × Reply :=
   | some l =>
     if l.ip ≠ r then (s, .nak)
     else
-      let cid := match m.cid with | some c => some c | none => l.cid
+      -- an empty circuit-id sub-option is a non-nil empty slice: it is NOT replaced by the stored circuit-id
+      let cid := match m.cid with | some c => some c | none => if m.o82empty then none else l.cid
       commit (dropStale s l cid) m r cid
   | none =>
-    if !s.cfg.contains r then (s, .nak)
-    else
-      match s.pool.reserve m.mac r with
-      | (p, true) => commit { s with pool := p } m r m.cid
-      | (_, false) => (s, .nak)
+    match s.cfg.nexusLookup m.mac with
+    | some nip => if nip ≠ r then (s, .nak) else commit s m r m.cid
+    | none =>
+      if !s.cfg.contains r then (s, .nak)
+      else
+        match s.pool.reserve m.mac r with
+        | (p, true) => commit { s with pool := p } m r m.cid
+        | (_, false) => (s, .nak)
 
 def dropIndex (byCid : AMap Nat Lease) (l : Lease) : AMap Nat Lease :=
   match l.cid with
@@ -223,6 +243,28 @@ def expireOne (t : Nat) (s : State) (mac : Nat) : State :=
 def cleanup (s : State) (order : List Nat) : State :=
   (order ++ AMap.keys s.leases).foldl (expireOne s.now) s
 
+/-- the read-locked scan of cleanupExpiredLeases: the MACs whose lease has run out, in map-iteration order -/
+def expiredList (s : State) (order : List Nat) : List Nat :=
+  (order ++ AMap.keys s.leases).eraseDups.filter fun mac =>
+    match AMap.lookup s.leases mac with
+    | some l => decide (s.now > l.exp)
+    | none => false
+
+/-- the write-locked removal loop over the scanned MACs; `t` is the `now` read before the scan.  Since bb6b2ef
+    every lease is looked at again (`expireOne`): one that is gone or no longer expired is skipped. -/
+def applyList (t : Nat) (s : State) (macs : List Nat) : State := macs.foldl (expireOne t) s
+
+/-- the removal loop BEFORE bb6b2ef: `lease := s.leases[mac]` is used without any check.
+    `none` = nil-pointer dereference (the process dies holding the lease lock). -/
+def applyUnchecked : State → List Nat → Option State
+  | s, [] => some s
+  | s, mac :: rest =>
+    match AMap.lookup s.leases mac with
+    | none => none
+    | some l =>
+      applyUnchecked { s with leases := AMap.erase s.leases mac, byCid := dropIndex s.byCid l,
+                              pool := s.pool.release l.ip } rest
+
 inductive Op where
   | discover (m : Msg)
   | request (m : Msg)
@@ -230,7 +272,9 @@ inductive Op where
   | decline (mac : Nat) (requested : Option Nat)
   | inform (mac : Nat)
   | advance (dt : Nat)                 -- virtual time passes
-  | cleanup (order : List Nat)         -- one pass of the one-minute cleanup
+  | cleanup (order : List Nat)         -- one pass of the one-minute cleanup, undisturbed
+  | cleanupApply (t : Nat) (macs : List Nat)   -- the removal half of a pass whose scan (at time t) found `macs`;
+                                               -- any messages may have been handled since the scan
   deriving Repr, DecidableEq
 
 def step (s : State) : Op → State × Reply
@@ -241,6 +285,7 @@ def step (s : State) : Op → State × Reply
   | .inform _ => (s, .ack 0 0)
   | .advance dt => ({ s with now := s.now + dt }, .none)
   | .cleanup order => (cleanup s order, .none)
+  | .cleanupApply t macs => (applyList t s macs, .none)
 
 def run (s : State) (ops : List Op) : State := ops.foldl (fun st op => (step st op).1) s
 
